@@ -291,9 +291,27 @@ pub fn dist_to_union(polys: &[Poly], q: P2) -> f64 {
 
 /// the parts of the pieces' edges that are boundary of the union: an edge point is boundary
 /// where the point 1e-6 outside it lies in no other piece
+fn bbox_of(p: &Poly) -> (f64, f64, f64, f64) {
+    let mut b = (f64::INFINITY, f64::INFINITY, f64::NEG_INFINITY, f64::NEG_INFINITY);
+    for q in p {
+        b = (b.0.min(q.0), b.1.min(q.1), b.2.max(q.0), b.3.max(q.1));
+    }
+    b
+}
+
+/// distance from q to the boundary of one polygon
+pub fn own_depth(p: &Poly, q: P2) -> f64 {
+    let mut d = f64::INFINITY;
+    for i in 0..p.len() {
+        d = d.min(dist_seg(q, p[i], p[(i + 1) % p.len()]));
+    }
+    d
+}
+
 pub fn exposed_boundary(polys: &[Poly]) -> Vec<(P2, P2)> {
     const EPS: f64 = 1e-6;
     let mut out = Vec::new();
+    let boxes: Vec<(f64, f64, f64, f64)> = polys.iter().map(bbox_of).collect();
     for (pi, p) in polys.iter().enumerate() {
         if p.len() < 3 {
             continue;
@@ -312,6 +330,10 @@ pub fn exposed_boundary(polys: &[Poly]) -> Vec<(P2, P2)> {
             let mut cov: Vec<(f64, f64)> = Vec::new();
             for (qi, qpoly) in polys.iter().enumerate() {
                 if qi == pi || qpoly.len() < 3 {
+                    continue;
+                }
+                let bb = boxes[qi];
+                if oa.0.max(ob.0) < bb.0 - 1e-6 || oa.0.min(ob.0) > bb.2 + 1e-6 || oa.1.max(ob.1) < bb.1 - 1e-6 || oa.1.min(ob.1) > bb.3 + 1e-6 {
                     continue;
                 }
                 if let Some(iv) = clip_segment(qpoly, oa, ob) {
@@ -373,4 +395,70 @@ pub fn depth(exposed: &[(P2, P2)], q: P2) -> f64 {
         d = d.min(dist_seg(q, *a, *b));
     }
     d
+}
+
+
+/// acceleration structure for the point queries of one region
+pub struct Query {
+    inner: Vec<Poly>,
+    outer: Vec<Poly>,
+    inner_boxes: Vec<(f64, f64, f64, f64)>,
+    outer_boxes: Vec<(f64, f64, f64, f64)>,
+    exposed: Vec<(P2, P2)>,
+}
+
+fn box_dist(b: &(f64, f64, f64, f64), q: P2) -> f64 {
+    let dx = (b.0 - q.0).max(0.0).max(q.0 - b.2);
+    let dy = (b.1 - q.1).max(0.0).max(q.1 - b.3);
+    (dx * dx + dy * dy).sqrt()
+}
+
+impl Query {
+    pub fn new(reg: &Region) -> Query {
+        Query {
+            inner_boxes: reg.inner.iter().map(bbox_of).collect(),
+            outer_boxes: reg.outer.iter().map(bbox_of).collect(),
+            exposed: exposed_boundary(&reg.inner),
+            inner: reg.inner.clone(),
+            outer: reg.outer.clone(),
+        }
+    }
+    pub fn in_inner(&self, q: P2) -> bool {
+        self.inner.iter().zip(self.inner_boxes.iter()).any(|(p, b)| box_dist(b, q) == 0.0 && poly_contains(p, q, 1e-9))
+    }
+    /// is q inside the union by more than `margin`? (precondition: in_inner(q))
+    pub fn deeper_than(&self, q: P2, margin: f64) -> bool {
+        for (a, b) in &self.exposed {
+            if (q.0 < a.0.min(b.0) - margin) || (q.0 > a.0.max(b.0) + margin) || (q.1 < a.1.min(b.1) - margin) || (q.1 > a.1.max(b.1) + margin) {
+                continue;
+            }
+            if dist_seg(q, *a, *b) <= margin {
+                return false;
+            }
+        }
+        true
+    }
+    /// is q farther than `margin` from the (circumscribed) union?
+    pub fn farther_than(&self, q: P2, margin: f64) -> bool {
+        for (p, b) in self.outer.iter().zip(self.outer_boxes.iter()) {
+            if box_dist(b, q) > margin {
+                continue;
+            }
+            if poly_contains(p, q, 0.0) {
+                return false;
+            }
+            for i in 0..p.len() {
+                if dist_seg(q, p[i], p[(i + 1) % p.len()]) <= margin {
+                    return false;
+                }
+            }
+        }
+        true
+    }
+    pub fn depth(&self, q: P2) -> f64 {
+        depth(&self.exposed, q)
+    }
+    pub fn exposed(&self) -> &[(P2, P2)] {
+        &self.exposed
+    }
 }
